@@ -566,6 +566,28 @@ pub fn run(ctx: &Ctx) -> i32 {
             bound.push("all 4-leaf trees over an 8-leaf core".into());
         }
     }
+    // large programs: k clauses, each with its own matcher and printer (identifier numbers, frame
+    // tags and table keys grow with k); every clause's output is checked on records aimed at it
+    let ks: Vec<usize> = match ctx.tier {
+        Tier::Quick => vec![4, 5, 8, 9, 16, 17, 33, 64],
+        Tier::Thorough => (1..=40).chain([64, 65, 100, 127, 128, 129, 200, 255, 256, 257, 300]).collect(),
+    };
+    let mut larges = vec![];
+    for &k in &ks {
+        let fold = |items: Vec<Expr>| {
+            let mut it = items.into_iter();
+            let mut acc = it.next().unwrap();
+            for e in it {
+                acc = Expr::or(acc, e);
+            }
+            acc
+        };
+        larges.push(fold((0..k).map(|i| Expr::and(t(Test::Name(format!("n{i}"))), a(Action::FPrint(format!("f{i}"))))).collect()));
+        larges.push(fold((0..k).map(|i| Expr::and(t(Test::IName(format!("N{i}*"))), a(if i % 2 == 0 { Action::Print } else { Action::Printf(vec![Fmt::Field(Field::Basename), lit(&format!(" {i}")), NL]) }))).collect()));
+        larges.push(fold((0..k).map(|i| Expr::and(t(Test::Path(format!("p{i}/*"))), a(Action::FPrintf(format!("g{}", i / 2), vec![Fmt::Field(Field::NameNoStart), lit(&format!("#{i}"))])))).collect()));
+    }
+    acc = acc.merge(par_items(&larges, |e, acc| check_tree(e, false, acc)));
+    bound.push(format!("programs of {:?} clauses, each clause with its own matcher and printer (file / stdout / formatted), three families", ks));
     let mut extra = serde_json::Map::new();
     extra.insert("leaf_menu_sizes".into(), json!({"full": full.len(), "mid": mid.len(), "core16": c16.len(), "core8": c8.len()}));
     finish(
